@@ -115,6 +115,9 @@ def reach_rename(new_origin: int, rename: bool, n1: int, n2: int, via_ref: bool)
 # -------------------------------------------------------------------------------------- lru key 2-safety (O14.1)
 
 VALS = [1, 1.0, True, 0, 0.0, False, 2, 2.0, -1, -1.0, '1', '1.0', 'True']
+# tuples (round 6): a memo keyed on a tuple of values sees (10, 20) and (10.0, 20.0) as one key - typed=True looks at the
+# type of the argument (tuple), not inside it.  Offered to single-argument memos only.
+VALS = VALS + [(1,), (1.0,), (True,), (10, 20), (10.0, 20.0), (10, 20.0), (0,), (0.0,), (-0.0,), (False,), ('1',), (1, 2, 3), (1.0, 2.0, 3.0)]
 N_VALS = len(VALS)
 CODES = [RepC.IDENT, RepC.ASCII, RepC.FDOUBL, RepC.SLONG, RepC.USHORT, RepC.UVARI, RepC.STATUS]
 N_CODES = len(CODES)
@@ -142,15 +145,19 @@ def cache_key_check(mi, ci, i, j):
     f = lru.__wrapped__
     import inspect
     npar = len(inspect.signature(f).parameters)
-    if npar == 1 and not (type(a) is int and type(b) is int):
-        return 0        # single-argument memos (segment attribute byte) only ever receive integer flag sums
+    if npar == 1 and not ((type(a) is int and type(b) is int) or (type(a) is tuple and type(b) is tuple)):
+        return 0        # single-argument memos (segment attribute byte) only ever receive integer flag sums - or tuples
+    if npar != 1 and (type(a) is tuple or type(b) is tuple):
+        return 0        # (code, value) memos receive scalars: lists are flattened before they are encoded
 
     def run(v):
         try:
             r = f(CODES[ci], v) if npar == 2 else f(v)
         except Exception as e:
             return ('exc', type(e).__name__)
-        return ('ok', lits(r))
+        if isinstance(r, (bytes, bytearray, Rope)):
+            return ('ok', lits(r))
+        return ('ok', repr(r))
     if run(a) != run(b):
         return 1
     return 0
